@@ -109,6 +109,7 @@ var allowedCtrlHdr = map[string]bool{"control": true, "offset": true}
 
 func RunRT(c *RTCase) *vkit.Outcome {
 	o := &vkit.Outcome{}
+	storekit.SetVariant(vkit.HashOf(c))
 	ctx := context.Background()
 	var store eventbus.EventStore
 	switch c.Store {
